@@ -3,7 +3,7 @@ Merged into tools/props/c17.py by check.py.  Every random choice comes from `rng
 from genlib import *
 
 LEAN_MODULES = ["MpirProofs.Props.C17"]
-THEOREMS = []          # filled in below (kept next to the generator that exercises the same functions)
+THEOREMS = ["Mpir.Io.out_raw_format", "Mpir.Io.raw_roundtrip", "Mpir.Io.inp_raw_total"]
 TRUSTED = ["hand-written models lean/Mpir/Model/Io.lean of mpz/{export,import,out_raw,inp_raw,out_str,inp_str}.c, "
            "mpq/{out_str,inp_str}.c, mpf/{out_str,inp_str}.c and the gmp_fprintf path (tied by correspondence on every run)",
            "libc stream semantics (fopencookie, setvbuf(_IONBF), fwrite/fputc/getc/ungetc, sticky ferror) as modelled by Stream/OStream",
